@@ -288,6 +288,8 @@ func init() {
 					if len([]rune(fr)) > 1 {
 						n = n2
 					}
+					sl0, fr0, n0 := slot, fr, n
+					c.CurCase(func() *fw.Case { return &fw.Case{Kind: "c20", S: fw.Strs(sl0, fr0), N: []int{n0}} })
 					c.Eval()
 					f, a, b := c20Eval(slot, fr, n)
 					if b.Bytes >= 2*a.Bytes || b.Stmts >= 2*a.Stmts {
